@@ -4,7 +4,7 @@
 From RV Require Import Prelude.
 From Tensor Require Import Overlap.
 From LayoutOps Require Import ArrayModel LayoutOps Array_proofs Denote_proofs SliceRange_proofs
-  Gather_proofs Perm_proofs.
+  Gather_proofs Perm_proofs Defined_proofs.
 From Coq Require Import ZifyBool.
 Open Scope N_scope.
 
@@ -205,4 +205,82 @@ Proof.
   destruct (sels_of sel_numpy (t_shape t) items); [|discriminate].
   unfold ref_gather in Hr. destruct (sels_in_range _ _); [|discriminate].
   now apply tabulate_wf in Hr.
+Qed.
+
+(* ---------------------------------------------------------------- error direction *)
+Lemma gather_src_valid shape ss idx :
+  sels_ok shape ss -> valid_b (gather_shape ss) idx = true ->
+  exists src, gather_src ss idx = Some src /\ valid_b shape src = true.
+Proof.
+  revert ss idx. induction shape as [|n r IH]; intros [|[l keep] sr] idx H Hv; cbn [sels_ok] in H; try contradiction.
+  - destruct idx; [|discriminate]. exists []. split; reflexivity.
+  - destruct H as (Hin & Hk & H3). unfold gather_shape in *. destruct keep; cbn [filter snd map fst] in Hv.
+    + destruct idx as [|i ir]; [discriminate|]. cbn [valid_b] in Hv.
+      apply andb_prop in Hv as [Hi Hir]. apply N.ltb_lt in Hi.
+      destruct (IH sr ir H3 Hir) as (src & Hs & Hvs).
+      exists (nthN l i 0 :: src). cbn [gather_src]. rewrite (nthN_nth_error l i 0 Hi), Hs.
+      split; [reflexivity|]. cbn [valid_b]. rewrite Hvs, andb_true_r. apply N.ltb_lt.
+      apply Hin. unfold nthN. apply nth_In. unfold lenN in Hi. lia.
+    + destruct (Hk eq_refl) as [j ->]. destruct (IH sr idx H3 Hv) as (src & Hs & Hvs).
+      exists (j :: src). cbn [gather_src]. rewrite Hs. split; [reflexivity|].
+      cbn [valid_b]. rewrite Hvs, andb_true_r. apply N.ltb_lt. apply Hin. now left.
+Qed.
+
+Lemma product_defined {A} (t : tensor A) ss :
+  wf_tensor t -> sels_ok (t_shape t) ss -> mapM (tget t) (sel_product ss) <> None.
+Proof.
+  intros Hw Hok Hn.
+  destruct (reindex_defined t (gather_shape ss) (gather_src ss) Hw) as [t' Ht'].
+  { intros idx Hv. exact (gather_src_valid _ _ _ Hok Hv). }
+  pose proof (gather_as_product t ss Hok) as Hg. unfold ref_gather in Hg.
+  rewrite (sels_ok_in_range _ _ Hok), Ht', Hn in Hg. discriminate.
+Qed.
+
+Lemma copy_sels_error dims items e :
+  dims_small dims -> copy_sels dims items = Err e -> sels_of sel_numpy (shape_of dims) items = None.
+Proof.
+  revert items e. induction dims as [|d rest IH]; intros items e Hsm H.
+  - cbn [copy_sels] in H. destruct items; [discriminate|reflexivity].
+  - inversion Hsm as [|? ? Hd Hrest]; subst.
+    cbn [copy_sels] in H. rewrite shape_of_cons. cbn [sels_of].
+    destruct items as [|it items']; cbn [tl] in H.
+    + destruct (copy_sels rest []) as [ss'|e'] eqn:E; [discriminate|]. now rewrite (IH _ _ Hrest E).
+    + destruct it as [i|st0 en st].
+      * cbn [sel_numpy]. unfold sel_index.
+        destruct ((i <? - Z.of_N (d_size d)) || (Z.of_N (d_size d) <=? i))%Z eqn:Eb.
+        -- assert (Hj : (neg_resolve (Z.of_N (d_size d)) i < 0
+                         \/ Z.of_N (d_size d) <= neg_resolve (Z.of_N (d_size d)) i)%Z).
+           { unfold neg_resolve. destruct (i <? 0)%Z eqn:?; lia. }
+           replace ((0 <=? _) && _)%Z with false by lia. reflexivity.
+        -- destruct (sr_index_range (item_range (Idx i)) (d_size d)) as [g|e'] eqn:Eg.
+           ++ destruct (copy_sels rest items') as [ss'|e''] eqn:E; [discriminate|].
+              rewrite (IH _ _ Hrest E). now destruct ((0 <=? _) && _)%Z.
+           ++ exfalso. destruct (index_range_ok (item_range (Idx i)) (d_size d)) as [g Hg]; [|exact Hd|congruence].
+              unfold item_range. destruct (i =? -1)%Z; cbn; lia.
+      * cbn [sel_numpy]. destruct (st =? 0)%Z eqn:Ez; [reflexivity|].
+        destruct (sr_index_range (item_range (Rng st0 en st)) (d_size d)) as [g|e'] eqn:Eg.
+        -- destruct (copy_sels rest items') as [ss'|e''] eqn:E; [discriminate|].
+           now rewrite (IH _ _ Hrest E).
+        -- exfalso. destruct (index_range_ok (item_range (Rng st0 en st)) (d_size d)) as [g Hg]; [|exact Hd|congruence].
+           cbn. lia.
+Qed.
+
+(* slice_copy panics only where numpy's t[items] is undefined *)
+Theorem slice_copy_error {A} (s : list A) v items t e :
+  denote s v = Some t -> dims_small (v_dims v) -> slice_copy false s v items = Err e ->
+  ref_slice_numpy t items = None.
+Proof.
+  intros Ht Hsm H. unfold slice_copy in H.
+  destruct (slice false v items) as [v'|e0] eqn:Es.
+  - (* the fast path cannot fail: the sliced view denotes a tensor *)
+    exfalso. destruct (slice_defined s v items v' t Ht Es) as [t' Ht'].
+    rewrite <- denote_eq_fast, (slice_denotes s v items v' t Ht Es), Ht' in H. discriminate.
+  - unfold slice_copy_general in H. unfold ref_slice_numpy, ref_slice_with.
+    rewrite (denote_shape _ _ _ Ht).
+    destruct (copy_sels (v_dims v) items) as [ss|e'] eqn:Ec.
+    + exfalso. rewrite <- denote_eq_fast, Ht in H.
+      destruct (copy_sels_spec _ _ _ Ec) as [_ H2]. rewrite <- (denote_shape _ _ _ Ht) in H2.
+      destruct (mapM (tget t) (sel_product ss)) eqn:Em; [discriminate|].
+      exact (product_defined t ss (denote_wf _ _ _ Ht) H2 Em).
+    + now rewrite (copy_sels_error _ _ _ Hsm Ec).
 Qed.
